@@ -379,6 +379,67 @@ func alinRandMatrix(g *hx.Gen, n int) [][]int {
 	return m
 }
 
+// alinOversize embeds the n x n matrix m in the upper-left corner of a square matrix with k
+// more rows and columns.  The API accepts such a matrix (only len(a) < alpha.Len() is an
+// error) and the aligners must score letters i, j with entry [i][j] of it, i.e. read the
+// flattened matrix with the row stride len(a), not alpha.Len(); the extra rows and columns
+// are never addressed by a letter of the alphabet.  fill selects what stands there:
+// 0 large positive distinct values, 1 large negative distinct values, 2 zeros, 3 values
+// that look like the scores of further ordinary letters.
+func alinOversize(m [][]int, k, fill int) [][]int {
+	n := len(m)
+	out := make([][]int, n+k)
+	for i := range out {
+		out[i] = make([]int, n+k)
+		for j := range out[i] {
+			switch {
+			case i < n && j < n:
+				out[i][j] = m[i][j]
+			case fill == 0:
+				out[i][j] = 1000 + 37*i + j
+			case fill == 1:
+				out[i][j] = -1000 - 37*i - j
+			case fill == 2:
+				out[i][j] = 0
+			case i == j:
+				out[i][j] = 2 + i%3
+			case i == 0 || j == 0:
+				out[i][j] = -1 - (i+j)%2
+			default:
+				out[i][j] = (i*3+j*5)%7 - 3
+			}
+		}
+	}
+	return out
+}
+
+// alinOverSizes are the numbers of extra rows/columns of the bounded-exhaustive oversized
+// family: alphabet size +1, +2 and a larger one.
+var alinOverSizes = []int{1, 2, 5}
+
+// alinRandOversize makes a random square matrix larger than the alphabet out of m (whose
+// size is the alphabet's): a matrix of the same family for a larger alphabet (fam >= 0), a
+// random larger matrix, or m embedded with one of the fills of alinOversize.
+func alinRandOversize(g *hx.Gen, m [][]int, fam int) [][]int {
+	n := len(m)
+	k := g.Pick(1, 1, 2, 2, 3, 5, 8, 22)
+	if n > 10 && k > 8 {
+		k = 8
+	}
+	switch g.Intn(3) {
+	case 0:
+		if fam >= 0 {
+			return alinFamily(n + k)[fam] // its upper-left n x n block is alinFamily(n)[fam]
+		}
+		big := alinRandMatrix(g, n+k)
+		for i := 0; i < n; i++ {
+			copy(big[i][:n], m[i])
+		}
+		return big
+	}
+	return alinOversize(m, k, g.Intn(4))
+}
+
 // alinSeqs enumerates all sequences over letters of length lo..hi.
 func alinSeqs(letters string, lo, hi int) []string {
 	var out []string
@@ -423,11 +484,16 @@ func alinRandomCase(g *hx.Gen, maxLen int) string {
 	}
 	n := len(def)
 	var m [][]int
+	famIdx := -1
 	if g.Chance(0.5) {
 		fam := alinFamily(n)
-		m = fam[g.Intn(len(fam))]
+		famIdx = g.Intn(len(fam))
+		m = fam[famIdx]
 	} else {
 		m = alinRandMatrix(g, n)
+	}
+	if g.Chance(0.3) { // a square matrix larger than the alphabet
+		m = alinRandOversize(g, m, famIdx)
 	}
 	letters := def[1:]
 	if g.Chance(0.1) {
@@ -491,18 +557,57 @@ func alinExhaustive(g *hx.Gen, def string, maxLen int, stride int) {
 	}
 }
 
+// alinExhaustiveOversized is alinExhaustive with every matrix of the family embedded in a
+// square matrix with 1, 2 and 5 more rows and columns than the alphabet has letters (the fill
+// of the extra part rotates through the four kinds of alinOversize).
+func alinExhaustiveOversized(g *hx.Gen, def string, maxLen int, stride int) {
+	seqs := alinSeqs(def[1:], 1, maxLen)
+	atok := alinAlphaTok(def, true, def[0])
+	k := 0
+	for mi, m := range alinFamily(len(def)) {
+		for ki, extra := range alinOverSizes {
+			mt := alinMatrixTok(alinOversize(m, extra, (mi+ki)%4))
+			for _, r := range seqs {
+				for _, q := range seqs {
+					for oi, op := range alinOps {
+						k++
+						if stride > 1 && (k+mi+oi)%stride != 0 {
+							continue
+						}
+						if g.Done() {
+							return
+						}
+						g.Casef("%s %s %s %s %s LL", op, atok, mt, hx.Hex([]byte(r)), hx.Hex([]byte(q)))
+					}
+				}
+			}
+		}
+	}
+}
+
+// alinTinyRandom emits one random-matrix case on tiny sequences over a 2- or 3-letter
+// alphabet; three in ten matrices are larger than the alphabet.
+func alinTinyRandom(g *hx.Gen) {
+	def := []string{"-ab", "-abc"}[g.Intn(2)]
+	m := alinRandMatrix(g, len(def))
+	if g.Chance(0.3) {
+		m = alinRandOversize(g, m, -1)
+	}
+	r := g.Letters(def[1:], g.Range(1, 6))
+	q := g.Letters(def[1:], g.Range(1, 6))
+	g.Casef("%s %s %s %s %s LL", alinOps[g.Intn(3)], alinAlphaTok(def, true, '-'), alinMatrixTok(m), hx.Hex(r), hx.Hex(q))
+}
+
 func c08linGen(g *hx.Gen) {
-	// bounded-exhaustive part
+	// bounded-exhaustive part: matrices of the alphabet's size, then oversized ones
 	alinExhaustive(g, "-ab", g.Scale(4, 5), 1)
+	alinExhaustiveOversized(g, "-ab", g.Scale(3, 4), 1)
 	alinExhaustive(g, "-abc", g.Scale(3, 4), 1)
+	alinExhaustiveOversized(g, "-abc", g.Scale(2, 3), 1)
 	// random matrices on tiny sequences: score coincidences
 	n := g.Scale(5000, 40000)
 	for k := 0; k < n && !g.Done(); k++ {
-		def := []string{"-ab", "-abc"}[g.Intn(2)]
-		m := alinRandMatrix(g, len(def))
-		r := g.Letters(def[1:], g.Range(1, 6))
-		q := g.Letters(def[1:], g.Range(1, 6))
-		g.Casef("%s %s %s %s %s LL", alinOps[g.Intn(3)], alinAlphaTok(def, true, '-'), alinMatrixTok(m), hx.Hex(r), hx.Hex(q))
+		alinTinyRandom(g)
 	}
 	// random pairs over DNA and protein up to length 200
 	n = g.Scale(5000, 100000)
